@@ -52,6 +52,12 @@ func rejectJobs(c *Ctx, W int) ([]run.Job, error) {
 			for i := 0; i < g.u; i++ {
 				add(si, s, "condboth", gi, i, 0, 1)
 			}
+			// a conditional entry without conditions (existing entry emptied: nil / empty; a fresh one appended)
+			for i := range g.ents {
+				add(si, s, "noconds", gi, i, 0, 0)
+				add(si, s, "noconds", gi, i, 0, 1)
+			}
+			add(si, s, "noconds", gi, 0, 0, 2)
 			// argument index and operation of each condition
 			for i, e := range g.ents {
 				for k := range e.ops {
@@ -96,7 +102,7 @@ func init() {
 			return append(append(jobs, lj...), cj...), nil
 		},
 		NeedCovers: []string{"cover.returned", "cover.rejected", "assembled"},
-		Bounds:     map[string]interface{}{"base_shapes": "all valid structures of weight <=5 (quick) / <=6 (thorough), x86_64", "defects": "unknown default action; Syscalls nil / empty; unknown name (replacing or appended, conditional or not); duplicate name (appended / in front / fresh name twice); name both with and without conditions (both directions); argument index > 5; operation not implemented (symbolic string, 'equal', empty string) - each at every position", "accept": "all valid structures of weight <=6 (quick) / <=8 (thorough) plus name lists of 255/256 and long conditional lists: accepted on every path", "strings": "unbounded (equality atoms)"},
+		Bounds:     map[string]interface{}{"base_shapes": "all valid structures of weight <=5 (quick) / <=6 (thorough), x86_64", "defects": "unknown default action; Syscalls nil / empty; unknown name (replacing or appended, conditional or not); duplicate name (appended / in front / fresh name twice); name both with and without conditions (both directions); argument index > 5; operation not implemented (symbolic string, 'equal', empty string) - each at every position; plus a conditional entry WITHOUT conditions (emptied or appended): rejected, or accepted and then honoured by the program for all events (never dropped)", "accept": "all valid structures of weight <=6 (quick) / <=8 (thorough) plus name lists of 255/256 and long conditional lists: accepted on every path", "strings": "unbounded (equality atoms)"},
 		Outside:    []string{"two defects at once", "architecture without syscall tables through the GOARCH default (decided per build target in C19/C12)", "policies above 4096 instructions"},
 		Assumptions: append([]string{"a defect payload satisfies exactly the statement's defect predicate (e.g. name not a key of the architecture's table)"}, policyAssumptions...),
 		Trusted:    []string{"gosym engine and term simplifier; sat models replayed natively", "equality-atom encoding of strings (exact for ==, map lookup, ToLower)", "z3/cvc5, cross-checked"},
